@@ -21,6 +21,7 @@ type Clause struct {
 
 type LoopSpec struct {
 	Invariants []*Clause
+	Latch      []*Clause // ghost assertions checked (then assumed) at the end of every iteration, before the loop variables advance
 	Decreases  *Clause
 }
 
@@ -300,6 +301,11 @@ func (cs *ContractSet) ParseContractFile(path, pkgPath string) error {
 					name = fmt.Sprintf("inv%d", len(ls.Invariants)+1)
 				}
 				ls.Invariants = append(ls.Invariants, &Clause{Name: name, Text: text, E: e, Line: l.no, File: path})
+			case "latch":
+				if name == "" {
+					name = fmt.Sprintf("latch%d", len(ls.Latch)+1)
+				}
+				ls.Latch = append(ls.Latch, &Clause{Name: name, Text: text, E: e, Line: l.no, File: path})
 			case "decreases":
 				ls.Decreases = &Clause{Name: "decreases", Text: text, E: e, Line: l.no, File: path}
 			default:
@@ -484,9 +490,9 @@ func parseSpecDecl(kw, rest string) (*SpecFun, error) {
 		body = strings.TrimSpace(tail[k+1:])
 		tail = strings.TrimSpace(tail[:k])
 	}
-	if strings.HasSuffix(tail, " opaque") {
+	if tail == "opaque" || strings.HasSuffix(tail, " opaque") {
 		sf.Opaque = true
-		tail = strings.TrimSpace(strings.TrimSuffix(tail, " opaque"))
+		tail = strings.TrimSpace(strings.TrimSuffix(tail, "opaque"))
 	}
 	sf.Ret = tail
 	if sf.Ret == "" {
